@@ -145,4 +145,17 @@ CLAIMS = {
     design_ref="DESIGN.md §3 C10",
     note=_corr + "sensitivity formula not a single theorem (partial).",
     technique="Lean 4 proof (state machine, homomorphism/parametricity of the triangulation) + differential correspondence + model-free oracle"),
+ "C13": dict(
+    text="Lean 4 + Mathlib theorems over the model of dsolve21_/dsolve_upper21_/argabsmax/row and element swaps: over ANY "
+         "commutative ring with division, for every size n, every matrix, right-hand side and pivot-comparison function, "
+         "if every pivot divided by satisfies x/p*p = x then A x = b (C13_sound; loop invariants: rows operations preserve "
+         "the solution set, explicit zeroing is a genuine row operation, back substitution solves the triangular system); "
+         "instantiated for fields (C13_sound_field: pivot != 0) and for Mathlib's dual numbers TrivSqZeroExt ℝ ℝ "
+         "(C13_sound_dual_numbers: pivot VALUE != 0, so A x = b holds in value and first derivative); normal equations "
+         "(C13_lsq); row order irrelevant when the solution is unique (C13_row_order_irrelevant). PARTIAL: non-singular => "
+         "all pivot values non-zero, and the per-name refinement of list-based Dual/Dual2 arithmetic to these rings, are "
+         "covered by correspondence only.",
+    design_ref="DESIGN.md §3 C13",
+    note=_corr + "conditioning/rounding not modelled; pivots-exist and Dual->ring refinement not proved (partial).",
+    technique="Lean 4 + Mathlib proof (loop invariants over folds, Finset sums, ring algebra) + differential correspondence"),
 }
